@@ -191,13 +191,20 @@ def addrfilter_part(ctx, only=None):
         raise Infra("AddrFilterObs did not deliver a verdict (%s)" % o["status"])
     verdict = o["output"].split("OBS-VERDICT", 1)[1]
     lines = common.read_ndjson(res)
+    ntx = sum(1 for r in lines if r.get("gotSource") and r.get("gotDestination"))
+    if only is None and ntx < 30:
+        raise Infra("vacuity guard: only %d filters selected transactions by source and by destination" % ntx)
     for m in re.finditer(r'<<"(\w+)", (\d+)>>', verdict):
         r = lines[int(m.group(2)) - 1]
         ctx.violation("%s@filter:%s" % (m.group(1), r["filter"]),
-                      "accounts listed under the address filter '%s': %s (count %s); the accounts it selects: %s" % (r["filter"], r["listed"], r["count"], r["expect"]),
+                      ("accounts listed under the address filter '%s': %s (count %s); the accounts it selects: %s" % (r["filter"], r["listed"], r["count"], r["expect"]))
+                      if m.group(1) != "C04_AddressFilterOnTransactions" else
+                      ("transactions listed under the address filter '%s' by source / destination / account: %s / %s / %s (count %s); due: %s / %s / %s" % (
+                          r["filter"], r.get("gotSource"), r.get("gotDestination"), r.get("gotAccount"), r.get("countAccount"), r.get("bySource"), r.get("byDestination"), r.get("byAccount"))),
                       {"kind": "c04-addrfilter", "filter": r["filter"]})
     ctx.coverage["address_filters"] = {"cases": st["cases"], "expecting_accounts": st["cases_expecting_accounts"], "with_open_or_several_segments": st["multi_segment_filters"],
-                                       "rule": "every filter of 1..%d segments over {a, b, empty} against a ledger holding every address of 1..%d segments but one, in a bucket whose other ledger holds them all; exhaustive" % (n, n),
+                                       "rule": "every filter of 1..%d segments over {a, b, empty} against a ledger holding every address of 1..%d segments but one, in a bucket whose other ledger holds them all; per address one transaction drawing on it and one crediting it, listed and counted by source, by destination and by account; exhaustive" % (n, n),
+                                       "filters_selecting_transactions": ntx,
                                        "samples": (st["samples"] or [])[:1]}
 
 
